@@ -726,8 +726,21 @@ func ruleRequestTx(c *RC) *RuleResult {
 					r.fail(s.Fn.Name+"/missing-delete", c.Prog.Pos(s.Node), "entries of the missing list are deleted outside OnTransaction")
 				}
 			case c.clearedValue(v):
+				// (the function that makes the list may empty it first: what is still missing is listed again right away)
+				rebuilds := false
+				for _, s2 := range c.A.FnSites[s.Fn] {
+					if s2.Kind == "write" && s2.Loc == "ctx.MissingTransactions" && s2.Node.Pos() > s.Node.Pos() {
+						for _, sn2 := range s2.Snaps {
+							if sn2.Val != nil && sn2.Val.K == KCall && sn2.Val.Name == "append" {
+								rebuilds = true
+							}
+						}
+					}
+				}
 				if c.inEpoch(s.Fn) {
 					r.ok("missing list cleared by the epoch writer")
+				} else if rebuilds {
+					r.ok(s.Fn.Name + ": the missing list is emptied and made anew from the proposal's hashes")
 				} else {
 					r.fail(s.Fn.Name+"/missing-cleared", c.Prog.Pos(s.Node), "the missing-transaction list is cleared in "+s.Fn.Name+" (outside the epoch writer): requested transactions delivered afterwards are ignored")
 				}
